@@ -108,6 +108,18 @@ def check_chebychev(tier, seed):
             obs.append(_ob(f'{tag}:itransform_of_e_k_is_T_k_samples', okI))
             r = np.random.RandomState(N).randn(N)
             obs.append(_ob(f'{tag}:transform_itransform_identity', close(h.itransform(h.transform(r)), r, 1e-10) and close(h.transform(h.itransform(r.copy())), r, 1e-10)))
+            if N <= 12 and (x0, x1) == INTERVALS[0]:
+                # the 1-D helper applied along SEVERAL axes of a tensor-product array in one call (same N in every direction): still mutually inverse,
+                # and equal to the axis-by-axis application
+                ok2 = True
+                for nd, axes_ in ((2, (0, 1)), (2, (-1, -2)), (2, (1,)), (3, (0, 1, 2)), (3, (0, 2))):
+                    a = np.random.RandomState(N + nd).randn(*([N] * nd))
+                    ah = h.transform(a.copy(), axes=axes_)
+                    step = a.copy()
+                    for ax in axes_:
+                        step = h.transform(step, axes=(ax,))
+                    ok2 = ok2 and close(ah, step, 1e-9) and close(h.itransform(ah.copy(), axes=axes_), a, 1e-9)
+                obs.append(_ob(f'{tag}:transforms_along_several_axes_in_one_call_are_mutually_inverse', ok2))
             for p in (1, 2, 3):
                 D = h.get_differentiation_matrix(p).toarray()
                 want = np.array([pad(C.chebder(I[k], p) if k >= p else [0.0], N) for k in range(N)]).T / fac**p
@@ -191,6 +203,23 @@ def check_ultraspherical(tier, seed):
             with Guard(obs, f'{tag}:basis_changes'):
                 fwd, bck = u.get_basis_change_matrix(p_in=0, p_out=2).toarray(), u.get_basis_change_matrix(p_in=2, p_out=0).toarray()
                 obs.append(_ob(f'{tag}:basis_changes_mutually_inverse', close(fwd @ bck, np.eye(N), 1e-8)))
+            with Guard(obs, f'{tag}:basis_change_history'):
+                # history: ONE helper object is asked for many conversions in a row (same source, different targets; repeated requests); every answer is
+                # the one a fresh helper gives, up/down pairs are mutually inverse and conversions compose
+                seq_ = [(2, 1), (2, 0), (2, 2), (3, 1), (3, 0), (3, 2), (1, 0), (2, 0), (0, 2), (2, 1), (0, 3), (3, 0)]
+                ok_fresh = ok_inv = ok_comp = True
+                for (pi, po) in seq_:
+                    got = u.get_basis_change_matrix(p_in=pi, p_out=po).toarray()
+                    fresh = UltrasphericalHelper(N, x0=x0, x1=x1).get_basis_change_matrix(p_in=pi, p_out=po).toarray()
+                    ok_fresh = ok_fresh and close(got, fresh, 1e-12)
+                    back_ = u.get_basis_change_matrix(p_in=po, p_out=pi).toarray()
+                    ok_inv = ok_inv and close(got @ back_, np.eye(N), 1e-7)
+                    if pi - po >= 2:
+                        mid = u.get_basis_change_matrix(p_in=pi - 1, p_out=po).toarray() @ u.get_basis_change_matrix(p_in=pi, p_out=pi - 1).toarray()
+                        ok_comp = ok_comp and close(got, mid, 1e-7)
+                obs.append(_ob(f'{tag}:basis_change_sequence_on_one_helper_equals_fresh_helpers', ok_fresh))
+                obs.append(_ob(f'{tag}:basis_change_sequence_pairs_mutually_inverse', ok_inv))
+                obs.append(_ob(f'{tag}:basis_change_sequence_conversions_compose', ok_comp))
             if N >= 2:
                 with Guard(obs, f'{tag}:integration'):
                     Sint = u.get_integration_matrix().toarray()
@@ -278,12 +307,27 @@ def check_nd(tier, seed):
                 mats[ax] = one_d[ax]
                 obs.append(_ob(f'{tag}:basis_change[{ktag}]:axis{ax}_only', close(h.get_basis_change_matrix(axes=(ax,), **kw).toarray(), kron_all(mats), 1e-10)))
         # integration matrices along each polynomial axis
+        nd = len(axes)
         for ax, (b, n) in enumerate(axes):
             if b == 'fft':
                 continue
             mats = [np.eye(m) for _, m in axes]
             mats[ax] = np.asarray(one[ax].get_integration_matrix().toarray())
             obs.append(_ob(f'{tag}:integration_axis{ax}_is_tensor_product', close(h.get_integration_matrix(axes=(ax,)).toarray(), kron_all(mats), 1e-10)))
+            # an axis may be named from the front or from the back (negative index): the SAME axis, the same operator
+            obs.append(_ob(f'{tag}:integration_axis{ax - nd}_(negative_index)_is_the_same_axis', close(h.get_integration_matrix(axes=(ax - nd,)).toarray(), kron_all(mats), 1e-10)))
+            mats[ax] = np.asarray(one[ax].get_Dirichlet_recombination_matrix().toarray())
+            for name_ax in (ax, ax - nd):
+                try:
+                    got = h.get_Dirichlet_recombination_matrix(axis=name_ax).toarray()
+                    ok = close(got, kron_all(mats), 1e-12)
+                except Exception:
+                    ok = False
+                obs.append(_ob(f'{tag}:Dirichlet_recombination_axis{name_ax}_is_tensor_product', ok))
+        for ax in range(nd):
+            mats = [np.eye(n) for _, n in axes]
+            mats[ax] = one[ax].get_differentiation_matrix().toarray()
+            obs.append(_ob(f'{tag}:differentiation_axis{ax - nd}_(negative_index)_is_the_same_axis', close(h.get_differentiation_matrix(axes=(ax - nd,)).toarray(), kron_all(mats), 1e-10)))
         X = h.get_grid()
         rng = np.random.RandomState(3)
         u = rng.randn(1, *[n for _, n in axes])
